@@ -1,8 +1,15 @@
 package protocol
 
-import "fmt"
+import (
+	"fmt"
+	"sync"
+)
 
 var Connections map[string]*Monitor
+
+// connectionsMu guards Connections, which is updated from the handler
+// goroutine of every tunnel
+var connectionsMu sync.Mutex
 
 type Monitor struct {
 	Processor *Processor
@@ -14,6 +21,9 @@ const (
 )
 
 func RegisterTunnel(t *Tunnel, p *Processor) {
+	connectionsMu.Lock()
+	defer connectionsMu.Unlock()
+
 	if Connections == nil {
 		Connections = make(map[string]*Monitor)
 	}
@@ -25,6 +35,9 @@ func RegisterTunnel(t *Tunnel, p *Processor) {
 }
 
 func RemoveTunnel(t *Tunnel) {
+	connectionsMu.Lock()
+	defer connectionsMu.Unlock()
+
 	delete(Connections, t.Id)
 }
 
@@ -33,7 +46,10 @@ func Disconnect(id string) error {
 		return fmt.Errorf("%s connection does not exist", id)
 	}
 
-	if m, ok := Connections[id]; !ok {
+	connectionsMu.Lock()
+	m, ok := Connections[id]
+	connectionsMu.Unlock()
+	if !ok {
 		m.Processor.ctl <- ctlDisconnect
 		return nil
 	}
